@@ -17,7 +17,7 @@ RULE = ('values: text over ASCII / Latin-1 / BMP / astral planes with CR, LF, NU
         'Ombott.__call__, Response.copy(); x response classes Response / HTTPResponse / HTTPError; x every status in '
         'http.client.responses for the blacklist. Non-trivial = the value contains a control character or a non-ASCII character or is '
         'not a str; distinct = distinct (entry point, class, repr(value)).')
-REQUIRED = ['ctl_rejected', 'clean_accepted_and_roundtripped', 'non_ascii_roundtripped', 'multi_value_order_checked', 'blacklist_204',
+REQUIRED = ['third_or_later_value_of_a_header', 'ctl_rejected', 'clean_accepted_and_roundtripped', 'non_ascii_roundtripped', 'multi_value_order_checked', 'blacklist_204',
             'blacklist_304', 'statuses_checked', 'wsgi_emissions', 'entry_setitem', 'entry_append', 'entry_setdefault', 'entry_attr',
             'entry_ctor_dict', 'entry_ctor_pairs', 'entry_more_headers', 'entry_httperror_options', 'non_str_types']
 ASSUMPTIONS = ['header names are ASCII tokens (the statement speaks of values)',
@@ -88,6 +88,7 @@ def make_entry(rng, ombott):
         return cls(500, 'b') if cls is HTTPError else cls('b')
 
     entry = rng.choice(['setitem', 'append', 'setdefault', 'attr', 'ctor_dict', 'ctor_pairs', 'more_headers', 'httperror_options', 'copy'])
+    pre = rng.randint(0, 4)      # how many clean values the same header already holds (append / pair list)
 
     if entry == 'setitem':
         def f(n, v):
@@ -97,7 +98,8 @@ def make_entry(rng, ombott):
     elif entry == 'append':
         def f(n, v):
             r = new()
-            r.headers.append(n, 'first')
+            for k in range(pre):
+                r.headers.append(n, 'v%d' % k)
             r.headers.append(n, v)
             return r, n
     elif entry == 'setdefault':
@@ -119,9 +121,10 @@ def make_entry(rng, ombott):
             return cls('b', 200, {n: v}), n
     elif entry == 'ctor_pairs':
         def f(n, v):
+            pairs = [(n, 'v%d' % k) for k in range(pre)] + [(n, v)]
             if cls is HTTPError:
-                return HTTPError(500, 'b', headers=[(n, 'first'), (n, v)]), n
-            return cls('b', 200, [(n, 'first'), (n, v)]), n
+                return HTTPError(500, 'b', headers=pairs), n
+            return cls('b', 200, pairs), n
     elif entry == 'more_headers':
         def f(n, v):
             kw = {n.replace('-', '_'): v}
@@ -141,6 +144,7 @@ def make_entry(rng, ombott):
     if entry in ('ctor_dict', 'ctor_pairs', 'more_headers') and cls in (BaseResponse, Response):
         cls = rng.choice([HTTPResponse, HTTPError])
         cname = cls.__name__
+    f.pre = pre
     return entry, cname, f
 
 
@@ -200,6 +204,8 @@ def setter_unit(ctx, unit):
         if not accepted:
             if bad:
                 ctx.count('ctl_rejected')
+                if entry in ('append', 'ctor_pairs') and f.pre >= 2:
+                    ctx.count('third_or_later_value_of_a_header')
             elif allowed_type and not (entry == 'attr'):
                 ctx.count('clean_value_rejected(not a verdict)')
             continue
@@ -223,8 +229,10 @@ def setter_unit(ctx, unit):
         em = emitted_for(hl, real_name)
         exp = [sv]
         if entry in ('append', 'ctor_pairs'):
-            exp = ['first', sv]
+            exp = ['v%d' % k for k in range(f.pre)] + [sv]
             ctx.count('multi_value_order_checked')
+            if f.pre >= 2:
+                ctx.count('third_or_later_value_of_a_header')
         if real_name == 'Content-Type' and resp.status_code in (204, 304):
             exp = []
         try:
@@ -354,7 +362,8 @@ def wsgi_unit(ctx, unit):
         if how == 'setitem':
             app.response.headers[n] = v
         elif how == 'append':
-            app.response.headers.append(n, 'first')
+            for k in range(cur['pre']):
+                app.response.headers.append(n, 'v%d' % k)
             app.response.headers.append(n, v)
         elif how == 'attr':
             app.response.content_type = v
@@ -366,7 +375,7 @@ def wsgi_unit(ctx, unit):
             raise HTTPError(403, 'denied', **{n.replace('-', '_'): v})
         elif how == 'return':
             log['accepted'] = True
-            return HTTPResponse('returned', 200, [(n, 'first'), (n, v)])
+            return HTTPResponse('returned', 200, [(n, 'v%d' % k) for k in range(cur['pre'])] + [(n, v)])
         log['accepted'] = True
         return 'body'
 
@@ -376,7 +385,8 @@ def wsgi_unit(ctx, unit):
             v = rng.choice(TEXTS) + rng.choice(CTL + ['']) + rng.choice(TEXTS)
         n = rng.choice(NAMES)
         how = rng.choice(['setitem', 'append', 'attr', 'raise', 'raise_err', 'return'])
-        cur.update(v=v, n=n, how=how)
+        pre = rng.randint(0, 4)
+        cur.update(v=v, n=n, how=how, pre=pre)
         r = call_app(app, make_environ('GET', '/h'))
         ctx.count('wsgi_emissions')
         bad = has_ctl(v)
@@ -398,7 +408,7 @@ def wsgi_unit(ctx, unit):
             continue
         real = {'attr': 'Content-Type', 'raise_err': n.replace('-', '_')}.get(how, n)
         em = [x.encode('latin1').decode('utf8') for x in emitted_for(r.headers, real)]
-        exp = ['first', v] if how in ('append', 'return') else [v]
+        exp = (['v%d' % k for k in range(pre)] + [v]) if how in ('append', 'return') else [v]
         if em != exp:
             ctx.violation(f'emitted-value-differs:wsgi-{how}', f'{where}: expected {exp!r}, start_response got {em!r}', wit)
         else:
